@@ -29,7 +29,7 @@ LEVEL_TEXT = (
     "flag sets (+ None-valued and name filters) x 7 keyring situations, each run through the real automatic start; Core-V2 gateways "
     "additionally answer both search requests (legacy answer without secured-families DIB before the extended one, and after it with the "
     "secure attempt failing for lack of credentials); the capability sets announcing a secured service are also answered with every arrangement of their DIBs (all permutations, duplicated "
-    "DIBs, a foreign DIB in between); plus generated sequences of 2-4 gateways (single or double answers, rearranged DIBs) with failing "
+    "DIBs, a foreign DIB in between) and with other version octets in the family entries (supported DIB 255 / 0, secured DIB 0 / 2 / 255); plus generated sequences of 2-4 gateways (single or double answers, rearranged DIBs) with failing "
     "connection attempts. The single-gateway product is completed (exhaustive); sequences are sampled."
 )
 LEVEL_NOTE = (
@@ -37,9 +37,10 @@ LEVEL_NOTE = (
     "SearchResponse(Extended) frames to the real _response_rec_callback and yields what it queued; no socket is opened. Ground truth for "
     "'announces the service as secured' is the generated secured-families DIB (of the extended answer; the set of DIBs, whatever their order, repetition or neighbours), not the parsed descriptor. Judged: any _start_tunnelling_udp/"
     "_start_tunnelling_tcp call for a gateway announcing secured tunnelling, any _start_routing call for a gateway announcing secured "
-    "routing; GatewayScanFilter.match (name=None) against the predicate 'an enabled method is supported and its security requirement "
-    "agrees'. Not judged (recorded): a gateway that passes the filter but for which no start method exists (reported as connected without "
-    "interface), which gateway wins, keyring skipping, name filters, the cell where 'secure tunnelling supported' is ambiguous "
+    "routing; GatewayScanFilter.match against the predicate '(no name configured or it equals the device name) and an enabled method is supported "
+    "and its security requirement agrees'; a family listed in the secured-families DIB is secured whatever its version octet. Not judged (recorded): a gateway that passes the filter but for which no start method exists (reported as connected without "
+    "interface), which gateway wins, keyring skipping, whether a family listed with version octet 0 in the supported-families DIB is "
+    "supported, the cell where 'secure tunnelling supported' is ambiguous "
     "(tunnelling v1 only + secured tunnelling)."
 )
 
@@ -54,9 +55,11 @@ START_METHODS = ("_start_tunnelling_udp", "_start_tunnelling_tcp", "_start_secur
 class Caps:
     """Generated ground truth of what one gateway announces."""
 
-    __slots__ = ("core", "extended", "has_ia", "index", "routing", "secured", "security", "tunnelling")
+    __slots__ = ("core", "extended", "has_ia", "index", "routing", "sec_ver", "secured", "security", "tunnelling", "zero_versions")
 
-    def __init__(self, core, tunnelling, routing, security, secured, has_ia, extended, index=0):
+    def __init__(self, core, tunnelling, routing, security, secured, has_ia, extended, index=0, sec_ver=1, zero_versions=False):
+        self.sec_ver = sec_ver        # version octet written for the tunnelling/routing entries of the secured-families DIB
+        self.zero_versions = zero_versions  # tunnelling/routing entries of the supported-families DIB carry version octet 0
         self.core = core              # 0 = family absent, else version
         self.tunnelling = tunnelling  # 0 / 1 / 2
         self.routing = routing        # 0 / 1
@@ -68,12 +71,44 @@ class Caps:
 
     def key(self):
         return (self.core, self.tunnelling, self.routing, self.security,
-                None if self.secured is None else "".join(sorted(self.secured)), self.has_ia, self.extended)
+                None if self.secured is None else "".join(sorted(self.secured)), self.has_ia, self.extended, self.sec_ver, self.zero_versions)
 
     def as_dict(self):
         return {"core_version": self.core, "tunnelling_version": self.tunnelling, "routing_version": self.routing,
                 "security_version": self.security, "secured_families_dib": None if self.secured is None else sorted(self.secured),
-                "device_info_dib": self.has_ia, "extended_response": self.extended}
+                "device_info_dib": self.has_ia, "extended_response": self.extended,
+                "secured_entry_version_octet": self.sec_ver, "supported_entry_version_octet_zero": self.zero_versions}
+
+    def version_variants(self):
+        """The same announcement with other version octets in the family entries (supported DIB: 255 / 0; secured DIB: 0, 2, 255).
+
+        A family listed in the secured-families DIB is announced as secured whatever its version octet says."""
+        if not self.extended:
+            return []
+        out = {}
+        for supp in (None, 255, "zero"):
+            if supp is not None and not (self.tunnelling or self.routing):
+                continue
+            for sec_ver in (1, 0, 2, 255):
+                if sec_ver != 1 and not (self.t_secured or self.r_secured):
+                    continue
+                if supp is None and sec_ver == 1:
+                    continue
+                c = Caps(self.core, 255 if supp == 255 and self.tunnelling else self.tunnelling,
+                         255 if supp == 255 and self.routing else self.routing, self.security, self.secured, self.has_ia, True,
+                         index=self.index, sec_ver=sec_ver, zero_versions=(supp == "zero"))
+                out[c.key()] = c
+        return list(out.values())
+
+    def variant_class(self):
+        parts = []
+        if self.sec_ver != 1:
+            parts.append(f"secured-family-version-octet-{self.sec_ver}")
+        if self.zero_versions:
+            parts.append("supported-family-version-octet-0")
+        if 255 in (self.tunnelling, self.routing):
+            parts.append("supported-family-version-octet-255")
+        return "+".join(parts) or "usual-version-octets"
 
     @property
     def t_secured(self):
@@ -138,9 +173,9 @@ class Caps:
             supp.families.append(fam(DIBServiceFamily.CORE, self.core))
         supp.families.append(fam(DIBServiceFamily.DEVICE_MANAGEMENT, 1))
         if self.tunnelling:
-            supp.families.append(fam(DIBServiceFamily.TUNNELING, self.tunnelling))
+            supp.families.append(fam(DIBServiceFamily.TUNNELING, 0 if self.zero_versions else self.tunnelling))
         if self.routing:
-            supp.families.append(fam(DIBServiceFamily.ROUTING, self.routing))
+            supp.families.append(fam(DIBServiceFamily.ROUTING, 0 if self.zero_versions else self.routing))
         if self.security:
             supp.families.append(fam(DIBServiceFamily.SECURITY, self.security))
         dibs.append(supp)
@@ -148,9 +183,9 @@ class Caps:
             sec = DIBSecuredServiceFamilies()
             sec.families.append(DIBSecuredServiceFamilies.Family(DIBServiceFamily.DEVICE_MANAGEMENT, 1))
             if "T" in self.secured:
-                sec.families.append(DIBSecuredServiceFamilies.Family(DIBServiceFamily.TUNNELING, 1))
+                sec.families.append(DIBSecuredServiceFamilies.Family(DIBServiceFamily.TUNNELING, self.sec_ver))
             if "R" in self.secured:
-                sec.families.append(DIBSecuredServiceFamilies.Family(DIBServiceFamily.ROUTING, 1))
+                sec.families.append(DIBSecuredServiceFamilies.Family(DIBServiceFamily.ROUTING, self.sec_ver))
             dibs.append(sec)
         if layout is not None:
             by_name = dict(zip(self.dib_names(extended), dibs, strict=True))
@@ -192,6 +227,11 @@ def all_caps():
 
 
 # ---------------------------------------------------------------- predicate of the statement
+def ref_name_ok(name, caps: Caps) -> bool:
+    """The device name the generated gateways carry is 'gw' (device-info DIB present); without that DIB there is no such name."""
+    return name is None or (caps.has_ia and name == "gw")
+
+
 def ref_filter_match(flags, caps: Caps):
     """(strict, lenient) reading of 'one of its enabled methods is supported and its security requirement agrees'.
 
@@ -329,6 +369,12 @@ def filter_variants():
     return out
 
 
+def named_extra_variants():
+    """A name that fits, methods that may not: the name never replaces the method / security rule."""
+    return [((False, False, False, True, False), "gw"), ((True, True, True, False, False), "gw"), ((False, False, False, False, True), "gw"),
+            ((False, False, False, False, False), "gw"), ((False, True, False, False, False), "other")]
+
+
 def make_filter(flags, name):
     return GatewayScanFilter(name=name, tunnelling=flags[0], tunnelling_tcp=flags[1], routing=flags[2],
                              secure_tunnelling=flags[3], secure_routing=flags[4])
@@ -372,7 +418,7 @@ def offending_starts(log, gateways):
     return out
 
 
-def judge_log(ctx, log, gateways, flags, name, keyring_kind, outcomes, result, layout_specific=False):
+def judge_log(ctx, log, gateways, flags, name, keyring_kind, outcomes, result, layout_specific=False, variant_specific=False):
     """The statement: no unsecured start for a gateway that announces that service as secured."""
     starts = []
     last_kind = None
@@ -406,6 +452,8 @@ def judge_log(ctx, log, gateways, flags, name, keyring_kind, outcomes, result, l
             detail += "-via-legacy-search-response-of-core-v2-device"
         elif layout is not None and layout_specific:
             detail += "-" + layout_class(layout)   # only when the default DIB order of the same gateway does not show it
+        elif variant_specific and caps.variant_class() != "usual-version-octets":
+            detail += "-" + caps.variant_class()   # only when the usual version octets of the same gateway do not show it
         if method in ("_start_tunnelling_udp", "_start_tunnelling_tcp"):
             ctx.count("unsecured_tunnel_starts_judged")
             if caps.t_secured:
@@ -422,9 +470,90 @@ def judge_log(ctx, log, gateways, flags, name, keyring_kind, outcomes, result, l
     return starts
 
 
+METHOD_NAMES = ("tunnelling", "tunnelling_tcp", "routing", "secure_tunnelling", "secure_routing")
+
+
+def ref_filter_full(flags, name, caps: Caps):
+    """(strict, lenient) of the whole predicate: the name fits (or none is configured) AND the method / security rule."""
+    strict, lenient = ref_filter_match(flags, caps)
+    ok = ref_name_ok(name, caps)
+    return bool(ok and strict), bool(ok and lenient)
+
+
+def _safe_match(flt, desc):
+    try:
+        return flt.match(desc)
+    except BaseException as exc:  # noqa: BLE001
+        return exc
+
+
+def _judge_filter(ctx, caps, flags, name, how, desc, baseline):
+    """One GatewayScanFilter.match evaluation against the predicate. `baseline` = (caps, descriptor) of the plain form of the same
+    gateway (default DIB order, usual version octets) used to tell whether a disagreement is specific to the arrangement / octets."""
+    ctx.ev()
+    got = _safe_match(make_filter(flags, name), desc)
+    if isinstance(got, BaseException):
+        ctx.violation(f"filter-match-raises-{type(got).__name__}", {"caps": caps.as_dict(), "flags": list(flags), "name": name},
+                      f"GatewayScanFilter.match raised {type(got).__name__}")
+        return
+    if caps.zero_versions:
+        ctx.count("filter_match_supported_version_octet_0_not_judged")   # is a family listed with version 0 supported? not defined
+        return
+    strict, lenient = ref_filter_full(flags, name, caps)
+    if strict != lenient:
+        ctx.count("filter_match_ambiguous_secure_tunnelling_over_v1_not_judged")
+        return
+    ctx.count("filter_match_judged")
+    if name is not None:
+        ctx.count("filter_match_with_name_judged")
+        ctx.count("filter_name_equal_methods_do_not_fit" if ref_name_ok(name, caps) and not strict else "filter_name_other_cases")
+    ctx.count("filter_expected_match" if strict else "filter_expected_no_match")
+    ctx.distinct(("filter", tuple(bool(f) for f in flags), name, caps.tunnelling, caps.routing, caps.t_secured, caps.r_secured, caps.sec_ver, got))
+    if got is strict:
+        return
+    enabled = [n for n, f in zip(METHOD_NAMES, flags, strict=True) if f]
+    # reduce to one enabled method reproducing the disagreement (the filter is a disjunction of per-method clauses)
+    culprit = None
+    for i, f in enumerate(flags):
+        if not f:
+            continue
+        single = tuple(j == i for j in range(5))
+        s_strict, s_lenient = ref_filter_full(single, name, caps)
+        s_got = _safe_match(make_filter(single, name), desc)
+        if s_strict == s_lenient and isinstance(s_got, bool) and s_got is not s_strict:
+            culprit = METHOD_NAMES[i]
+            break
+    direction = "matches-although-no-enabled-method-fits" if got else "rejects-although-an-enabled-method-fits"
+    if culprit in ("routing", "secure_routing"):
+        about = f"routing{caps.routing}-routing-secured-{caps.r_secured}"
+    elif culprit is not None:
+        about = f"tunnellingv{caps.tunnelling}-tunnelling-secured-{caps.t_secured}"
+    else:
+        sec = ("T" if caps.t_secured else "") + ("R" if caps.r_secured else "") or "none"
+        about = f"tunnellingv{caps.tunnelling}-routing{caps.routing}-secured-{sec}"
+    # qualifiers, each only when the plainer form of the same question is answered correctly
+    if name is not None:
+        u_strict, u_lenient = ref_filter_match(flags, caps)
+        if u_strict != u_lenient or _safe_match(make_filter(flags, None), desc) is bool(u_strict):
+            about += "-with-configured-name-" + ("equal-to-the-device-name" if ref_name_ok(name, caps) else "different-from-the-device-name")
+    base_caps, base_desc = baseline
+    if desc is not base_desc:
+        b_strict, b_lenient = ref_filter_full(flags, name, base_caps)
+        if b_strict != b_lenient or _safe_match(make_filter(flags, name), base_desc) is b_strict:
+            if how.startswith("parsed:"):
+                about += "-" + how[len("parsed:"):]
+            if caps.variant_class() != "usual-version-octets":
+                about += "-" + caps.variant_class()
+    ctx.violation(
+        f"filter-{direction}-method[{culprit or '+'.join(enabled) or 'none'}]-{about}",
+        {"caps": caps.as_dict(), "flags(tunnelling,tunnelling_tcp,routing,secure_tunnelling,secure_routing)": list(flags), "filter_name": name,
+         "single_method_reproducing": culprit, "descriptor": how, "got": repr(got), "expected": strict},
+        f"GatewayScanFilter({enabled}, name={name!r}).match -> {got!r} for {caps.as_dict()} ({how} descriptor), the statement says {strict}")
+
+
 def check_filter_predicate(ctx, caps_list, frames):
     """GatewayScanFilter.match against the predicate, on descriptors produced by the real parse_dibs and on hand-set ones."""
-    variants = filter_variants()
+    variants = filter_variants() + named_extra_variants()
     for caps in caps_list:
         descriptor = GatewayDescriptor(ip_addr="10.0.0.2", port=3671)
         descriptor.parse_dibs(frames[caps.index].body.dibs)
@@ -435,65 +564,24 @@ def check_filter_predicate(ctx, caps_list, frames):
         if caps.secured is not None:
             manual.tunnelling_requires_secure = caps.t_secured
             manual.routing_requires_secure = caps.r_secured
-        described = [("parsed", descriptor), ("manual", manual)]
+        described = [(caps, "parsed", descriptor), (caps, "manual", manual)]
         if caps.extended:
             for layout in caps.layouts():
                 desc = GatewayDescriptor(ip_addr="10.0.0.2", port=3671)
                 desc.parse_dibs(caps.frame("10.0.0.2", layout=layout).body.dibs)
-                described.append(("parsed:" + layout_class(layout), desc))
+                described.append((caps, "parsed:" + layout_class(layout), desc))
                 ctx.count("descriptors_parsed_from_rearranged_dibs")
+            for vcaps in caps.version_variants():
+                desc = GatewayDescriptor(ip_addr="10.0.0.2", port=3671)
+                desc.parse_dibs(vcaps.frame("10.0.0.2").body.dibs)
+                described.append((vcaps, "parsed", desc))
+                ctx.count("descriptors_parsed_from_other_version_octets")
+                if vcaps.sec_ver == 0 and (vcaps.t_secured or vcaps.r_secured):
+                    ctx.count("descriptors_with_secured_family_version_octet_0")
         for flags, name in variants:
-            flt = make_filter(flags, name)
-            strict, lenient = ref_filter_match(flags, caps)
-            for how, desc in described:
-                ctx.ev()
-                try:
-                    got = flt.match(desc)
-                except BaseException as exc:  # noqa: BLE001
-                    ctx.violation(f"filter-match-raises-{type(exc).__name__}", {"caps": caps.as_dict(), "flags": list(flags), "name": name},
-                                  f"GatewayScanFilter.match raised {type(exc).__name__}")
-                    continue
-                if name is not None:
-                    ctx.count("filter_match_with_name_not_judged")
-                    continue
-                if strict != lenient:
-                    ctx.count("filter_match_ambiguous_secure_tunnelling_over_v1_not_judged")
-                    continue
-                ctx.count("filter_match_judged")
-                ctx.count("filter_expected_match" if strict else "filter_expected_no_match")
-                ctx.distinct(("filter", tuple(bool(f) for f in flags), caps.tunnelling, caps.routing, caps.t_secured, caps.r_secured, got))
-                if got is not strict:
-                    names = ("tunnelling", "tunnelling_tcp", "routing", "secure_tunnelling", "secure_routing")
-                    enabled = [n for n, f in zip(names, flags, strict=True) if f]
-                    # reduce to one enabled method reproducing the disagreement (the filter is a disjunction of per-method clauses)
-                    culprit = None
-                    for i, f in enumerate(flags):
-                        if not f:
-                            continue
-                        single = tuple(j == i for j in range(5))
-                        s_strict, s_lenient = ref_filter_match(single, caps)
-                        try:
-                            s_got = make_filter(single, None).match(desc)
-                        except BaseException:  # noqa: BLE001
-                            continue
-                        if s_strict == s_lenient and s_got is not s_strict:
-                            culprit = names[i]
-                            break
-                    direction = "matches-although-no-enabled-method-fits" if got else "rejects-although-an-enabled-method-fits"
-                    if culprit in ("routing", "secure_routing"):
-                        about = f"routing{caps.routing}-routing-secured-{caps.r_secured}"
-                    elif culprit is not None:
-                        about = f"tunnellingv{caps.tunnelling}-tunnelling-secured-{caps.t_secured}"
-                    else:
-                        sec = ("T" if caps.t_secured else "") + ("R" if caps.r_secured else "") or "none"
-                        about = f"tunnellingv{caps.tunnelling}-routing{caps.routing}-secured-{sec}"
-                    if how.startswith("parsed:") and flt.match(descriptor) is strict:
-                        about += "-" + how[len("parsed:"):]   # the default DIB order of the same gateway is judged correctly
-                    ctx.violation(
-                        f"filter-{direction}-method[{culprit or '+'.join(enabled) or 'none'}]-{about}",
-                        {"caps": caps.as_dict(), "flags(tunnelling,tunnelling_tcp,routing,secure_tunnelling,secure_routing)": list(flags),
-                         "single_method_reproducing": culprit, "descriptor": how, "got": repr(got), "expected": strict},
-                        f"GatewayScanFilter({enabled}).match -> {got!r} for {caps.as_dict()} ({how} descriptor), the statement says {strict}")
+            for subject, how, desc in described:
+                _judge_filter(ctx, subject, flags, name, how, desc, (caps, descriptor))
+
 
 async def single_gateway_product(ctx, caps_list, frames):
     variants = filter_variants()
@@ -506,8 +594,9 @@ async def single_gateway_product(ctx, caps_list, frames):
             # so that the automatic start moves on to the next queued descriptor of the same gateway
             outcomes = {ip: "nosec"} if mode == "ext+legacy" else {}
             ctx.count("single_gateway_response_mode_" + mode.replace("+", "_then_"))
-            for vi, (flags, name) in enumerate(variants):
-                for keyring_kind in KEYRINGS:
+            extra = named_extra_variants() if "+" not in mode else []
+            for vi, (flags, name) in enumerate(variants + extra):
+                for keyring_kind in (KEYRINGS if vi < len(variants) else ("none", "host_listed")):
                     ctx.ev()
                     result, log = await run_start(gateways, outcomes, flags, name, keyring_kind)
                     if result.startswith("unexpected"):
@@ -527,12 +616,13 @@ async def single_gateway_product(ctx, caps_list, frames):
                         ctx.count("connected_without_any_start_call_not_judged")
                     # the scanner's use of the filter equals the predicate (keyring 'ia_unknown' aborts before scanning);
                     # judged on the answer that carries the announcement (single answers only)
-                    if name is None and keyring_kind != "ia_unknown" and "+" not in mode:
-                        strict, lenient = ref_filter_match(flags, caps)
+                    if keyring_kind != "ia_unknown" and "+" not in mode:
+                        strict, lenient = ref_filter_full(flags, name, caps)
                         skipped_core_v2_plain = (not caps.extended) and caps.core >= 2
                         if strict == lenient and not skipped_core_v2_plain and offered is not strict:
-                            ctx.violation("scan-offers-gateway-against-filter" if offered else "scan-withholds-gateway-matching-filter",
-                                          {"caps": caps.as_dict(), "flags": list(flags), "keyring": keyring_kind},
+                            named = "" if name is None else "-with-configured-name"
+                            ctx.violation(("scan-offers-gateway-against-filter" if offered else "scan-withholds-gateway-matching-filter") + named,
+                                          {"caps": caps.as_dict(), "flags": list(flags), "filter_name": name, "keyring": keyring_kind},
                                           f"scan with filter {flags} {'offered' if offered else 'withheld'} {caps.as_dict()}")
                     ctx.distinct(("single", mode, caps.tunnelling, caps.routing, caps.t_secured, caps.r_secured, caps.has_ia, keyring_kind,
                                   tuple(bool(f) for f in flags), tuple(m for m, _p in starts), result))
@@ -586,9 +676,46 @@ async def rearranged_dibs_product(ctx, caps_list):
                                   keyring_kind, flags, tuple(m for m, _p in starts), result))
 
 
+async def version_octets_product(ctx, caps_list):
+    """Capability sets announcing a secured service with other version octets in the family entries, through the real automatic start."""
+    ip = "10.0.0.2"
+    for caps in caps_list:
+        if not caps.extended or not (caps.t_secured or caps.r_secured):
+            continue
+        default_gw = [(caps, ip, caps.frames(ip, "ext"), None)]
+        default_offending = {}
+        for flags in LAYOUT_FILTERS:
+            for keyring_kind in ("none", "host_listed"):
+                _r, dlog = await run_start(default_gw, {}, flags, None, keyring_kind)
+                default_offending[(flags, keyring_kind)] = offending_starts(dlog, default_gw)
+        for vcaps in caps.version_variants():
+            gateways = [(vcaps, ip, vcaps.frames(ip, "ext"), None)]
+            ctx.count("single_gateway_version_octets_" + vcaps.variant_class())
+            for flags in LAYOUT_FILTERS:
+                for keyring_kind in ("none", "host_listed"):
+                    ctx.ev()
+                    result, log = await run_start(gateways, {}, flags, None, keyring_kind)
+                    if result.startswith("unexpected"):
+                        ctx.inconclusive(f"automatic start raised {result} for {vcaps.as_dict()}")
+                        continue
+                    ctx.count("automatic_starts")
+                    ctx.count("automatic_starts_other_version_octets")
+                    ctx.count("result_" + result)
+                    specific = bool(offending_starts(log, gateways) - default_offending[(flags, keyring_kind)])
+                    starts = judge_log(ctx, log, gateways, flags, None, keyring_kind, {}, result, variant_specific=specific)
+                    offered = any(e[0] == "offered" for e in log)
+                    strict, lenient = ref_filter_match(flags, vcaps)
+                    if not vcaps.zero_versions and strict == lenient and offered is not strict:
+                        ctx.violation(("scan-offers-gateway-against-filter-" if offered else "scan-withholds-gateway-matching-filter-") + vcaps.variant_class(),
+                                      {"caps": vcaps.as_dict(), "flags": list(flags), "keyring": keyring_kind},
+                                      f"scan with filter {flags} {'offered' if offered else 'withheld'} {vcaps.as_dict()}")
+                    ctx.distinct(("versions", vcaps.variant_class(), vcaps.tunnelling, vcaps.routing, vcaps.t_secured, vcaps.r_secured,
+                                  keyring_kind, flags, tuple(m for m, _p in starts), result))
+
+
 async def gateway_sequences(ctx, caps_list, frames_for):
     rng = ctx.rng
-    n = ctx.scale(15000, 640000)
+    n = ctx.scale(8000, 640000)
     variants = filter_variants()
     interesting = [c for c in caps_list if c.extended and (c.tunnelling or c.routing)]
     for i in range(n):
@@ -599,6 +726,9 @@ async def gateway_sequences(ctx, caps_list, frames_for):
         outcomes = {}
         for pos in range(k):
             caps = rng.choice(interesting if rng.random() < 0.85 else caps_list)
+            if rng.random() < 0.25 and caps.version_variants():
+                caps = rng.choice(caps.version_variants())
+                ctx.count("sequence_gateways_with_other_version_octets")
             ip = f"10.0.{pos}.2"
             mode = rng.choice(caps.modes())
             layout = rng.choice(caps.layouts()) if caps.extended and rng.random() < 0.5 else None
@@ -637,6 +767,8 @@ def run(ctx):
                 "automatic_starts_sequences", "sequences_with_attempts_on_several_gateways",
                 "single_gateway_response_mode_legacy_then_ext", "single_gateway_response_mode_ext_then_legacy",
                 "sequence_gateways_answering_twice", "descriptors_parsed_from_rearranged_dibs", "automatic_starts_rearranged_dibs",
+                "descriptors_parsed_from_other_version_octets", "descriptors_with_secured_family_version_octet_0", "automatic_starts_other_version_octets",
+                "filter_match_with_name_judged", "filter_name_equal_methods_do_not_fit",
                 "single_gateway_dib_layout_secured-families-dib-before-supported-families-dib", "sequence_gateways_with_rearranged_dibs")
     caps_list = all_caps()
     frames = {c.index: c.frame("10.0.0.2") for c in caps_list}
@@ -664,6 +796,7 @@ def run(ctx):
             if ctx.shard == 0:
                 loop.run_until_complete(single_gateway_product(ctx, caps_list, frames))
                 loop.run_until_complete(rearranged_dibs_product(ctx, caps_list))
+                loop.run_until_complete(version_octets_product(ctx, caps_list))
                 ctx.exhaustive = True
                 ctx.extra["exhaustive_part"] = "432 capability sets (the 120 Core-V2 ones in 3 answer modes: extended, legacy+extended, extended+legacy with failing secure attempt) x 37 filters x 7 keyring situations (single gateway); the 216 capability sets announcing a secured service x every DIB arrangement of the answer (permutations, duplicated DIBs, a foreign DIB in between) x 6 filters x 2 keyring situations; filter predicate on the same sets and all DIB arrangements"
             loop.run_until_complete(gateway_sequences(ctx, caps_list, frames_for))
@@ -683,7 +816,8 @@ def replay(ctx, witness):
     gateways = []
     for pos, g in enumerate(witness["gateways"]):
         vals = [g[k] for k in keymap]
-        caps = Caps(vals[0], vals[1], vals[2], vals[3], None if vals[4] is None else frozenset(vals[4]), vals[5], vals[6])
+        caps = Caps(vals[0], vals[1], vals[2], vals[3], None if vals[4] is None else frozenset(vals[4]), vals[5], vals[6],
+                    sec_ver=g.get("secured_entry_version_octet", 1), zero_versions=g.get("supported_entry_version_octet_zero", False))
         ip = f"10.0.{pos}.2"
         mode = (witness.get("responses") or [None] * (pos + 1))[pos] or ("ext" if caps.extended else "legacy")
         lay = (witness.get("dib_layouts") or [None] * (pos + 1))[pos]
